@@ -749,7 +749,8 @@ def _(E, p):
     from grid.cubic import UniformGrid
 
     g = UniformGrid(E.arr("origin", np.array([-1.0, -1.0, -1.0])), E.arr("axes", np.eye(3) * 0.5), E.arr("shape", np.array([4, 4, 5]), dtype=int))
-    data = E.arr("data", np.exp(-np.sum(g.points**2, axis=1)))
+    # (the tail of a tight Gaussian is far below 1e-99 - a three-digit exponent in the cube file; the values are the caller's)
+    data = E.arr("data", np.exp(-(1.0, 60.0, 200.0)[p % 3] * np.sum(g.points**2, axis=1)))
     atcoords = E.arr("atcoords", np.array([[0.0, 0.0, 0.0], [0.0, 0.0, 0.9]]))
     atnums = E.arr("atnums", np.array([8, 1]), dtype=int)
     d = tempfile.mkdtemp(prefix="cube.", dir="/var/tmp")
